@@ -104,6 +104,55 @@ def w_lats(arg):
     return acc.res()
 
 
+def w_corner(surface):
+    """joint conditions on the raw fields: CPR latitude / longitude fields at corner values (0, 1, low-12-bits-zero
+    multiples, top bit only, all ones) x format bit x every other ME field (type code, altitude / movement, T, SS, SAF,
+    track) at ITS corner values.  Oracle without a position model: for fixed (F, YZ, XZ, reference) the answer must be
+    a finite pair, the same for every setting of the other fields, within half a zone of the reference, and it must
+    re-encode to the same CPR fields."""
+    acc = Acc()
+    cprs = [0, 1, 4096, 0x1F000, 0x10000, 0x0FFFF, 0x1FFFF, 0x0A000]
+    tcs = [5, 6, 7, 8] if surface else list(range(9, 19)) + [20, 21, 22]
+    refs = [(49.9, 0.05), (-33.2, -179.9), (0.4, 179.8)]
+    for i in (0, 1):
+        for yz in cprs:
+            for xz in cprs:
+                for latr, lonr in refs:
+                    seen = None
+                    k = 0
+                    for tc in tcs:
+                        others = ([(0, 0, 0), (127, 1, 127), (1, 1, 0), (124, 0, 64)] if surface else
+                                  [(0, 0, 0), (0xFFF, 3, 1), (1, 0, 1), (0x800, 2, 0), (0x010, 1, 1)])
+                        for o in others:
+                            for t in (0, 1):
+                                k += 1
+                                if surface:
+                                    me = C.me_surface(tc, o[0], o[1], o[2], i, yz, xz, t=t)
+                                else:
+                                    me = C.me_airborne(tc, o[0], i, yz, xz, ss=o[1], saf=o[2], t=t)
+                                msg = F.es(me, 0x4840D6, ca_for(17 + k % 2, k), 17 + k % 2)
+                                acc.n += 1
+                                r = call(pms.adsb.position_with_ref, msg, latr, lonr)
+                                case = {"corner": [msg, latr, lonr, surface, i, yz, xz]}
+                                if r[0] != "ok" or not (isinstance(r[1], tuple) and len(r[1]) == 2 and all(isinstance(x, float) and x == x for x in r[1])):
+                                    acc.bad("withref:%s:no_position_for_a_well_formed_frame:%s" % ("surface" if surface else "airborne", r[1] if r[0] != "ok" else "None_or_shape"), case)
+                                    continue
+                                if seen is None:
+                                    seen = r[1]
+                                    la, lo = r[1]
+                                    span = 90.0 if surface else 360.0
+                                    if abs(la - latr) > span / (60 - i) / 2 + 1e-6:
+                                        acc.bad("withref:%s:result_more_than_half_a_zone_from_the_reference" % ("surface" if surface else "airborne"), case)
+                                    elif abs(la) <= 90:
+                                        e = C.encode(Fr(la).limit_denominator(10 ** 12), Fr(lo).limit_denominator(10 ** 12), i, surface)
+                                        if (e["yz"] - yz) % 131072 not in (0, 1, 131071) or ((e["xz"] - xz) % 131072 not in (0, 1, 131071) and abs(la) < 86.9):
+                                            acc.bad("withref:%s:result_does_not_carry_the_frame's_CPR_fields" % ("surface" if surface else "airborne"), case)
+                                elif r[1] != seen:
+                                    acc.bad("withref:%s:result_depends_on_bits_outside_the_CPR_fields" % ("surface" if surface else "airborne"), case)
+                    acc.out.add(("corner", surface, i, yz, xz))
+    return acc.res()
+
+
 def w_guard(_):
     acc = Acc()
     for tc in range(32):
@@ -120,12 +169,14 @@ def w_guard(_):
 
 
 def w_any(t):
+    if t[0] == "c":
+        return w_corner(t[1])
     return w_guard(None) if t[0] == "g" else w_lats(t[1])
 
 
 def run(ctx):
     offs = OFF13 if ctx.thorough else OFF7
-    tasks = [("g", None)]
+    tasks = [("g", None), ("c", False), ("c", True)]
     for surface in (False, True):
         lats = S.lat_alphabet(surface, ctx.thorough)
         if not ctx.thorough:
@@ -141,6 +192,8 @@ def replay(case):
         r_ = call(pms.adsb.position_with_ref, m_, la, lo)
         ok = r_[0] == "ok" and isinstance(r_[1], tuple) and len(r_[1]) == 2 and all(x == x and abs(x) < 1e4 for x in r_[1])
         return [] if ok else [("withref:raises_or_malformed_at_a_transition_latitude:%s" % (r_[1] if r_[0] != "ok" else "shape"), case)]
+    if "corner" in case:
+        return [(s_, c_) for s_, c_ in w_corner(case["corner"][3])["viols"]]
     if "guard" in case:
         return [(s, c) for s, c in w_guard(None)["viols"]]
     s = judge(tuple(case["p"]))
